@@ -134,12 +134,14 @@ SetOK == (Has("expect") /\ cur.expect.t = "set") =>
             /\ Rec[l].ok = cur.expect.ok
             /\ ~cur.expect.ok => /\ Len(Codes) = Len(cur.expect.codes)
                                   /\ \A x \in 1..Len(cur.expect.codes) : InSeq(cur.expect.codes[x], Codes)
+\* I4 on a recording: a program that a generator built well-formed (the random programs of C01) is compiled successfully
+ValidOK == (Has("expect") /\ cur.expect.t = "valid") => Rec[l].ok
 TOutcome == /\ Ev("outcome") /\ n > 0 /\ wait = NoWait /\ pend.t # "none"
             /\ Rec[l].ok = (pend.t = "success")
             /\ Rec[l].codes = pend.codes
             /\ ~Rec[l].ok => Rec[l].codes # <<>>                                      \* I1
             /\ Len(Rec[l].diags) = Len(Rec[l].codes)
-            /\ LexOK /\ SetOK
+            /\ LexOK /\ SetOK /\ ValidOK
             /\ n' = 0 /\ k' = 0 /\ ds' = <<>> /\ lex' = {} /\ pend' = NoPend /\ cur' = Idle
             /\ l' = l + 1 /\ UNCHANGED wait /\ Frozen
 
